@@ -5,6 +5,7 @@ import (
 	"math/big"
 	"os"
 	"strings"
+	"sync"
 	"time"
 
 	"verif/harness/origin"
@@ -171,6 +172,88 @@ func listedOfOrErr(res map[string]probeResult) string {
 		return fmt.Sprintf("error:%v", res)
 	}
 	return s
+}
+
+// staleBackgroundLoad: the other way in which two loaders can meet on one entry. A first load failed (garbage), so the entry is known
+// and nothing is in force; a pass picks the location up and is kept inside its transfer of list N; the CA publishes N+1; a
+// certificate that names the location is presented and its handshake loads N+1 (fetch_actively); then the pass's transfer
+// completes. N was superseded before it ever arrived: it must not displace N+1.
+func staleBackgroundLoad(c *vk.Ctx, prop string) int {
+	n := 0
+	for _, disk := range []bool{false, true} {
+		if c.Violations() > 6 {
+			break
+		}
+		rw, err := newRepoWorld(disk, []string{"verify", "none"}[int(c.Seed+int64(n))%2], false, c.Seed*59+int64(n))
+		if err != nil {
+			c.Infra("repo world: %v", err)
+		}
+		listN, listN1 := rw.build("good", []string{"x", "z"}), rw.build("good", []string{"y", "z"})
+		var mu sync.Mutex
+		reqs := 0
+		gate, inGate := make(chan struct{}), make(chan struct{})
+		rw.org.Set(pathRepo, origin.Behaviour{Kind: "func", Func: func([]byte) (int, []byte) {
+			mu.Lock()
+			reqs++
+			r := reqs
+			mu.Unlock()
+			switch r {
+			case 1:
+				return 200, []byte("<html>maintenance</html>")
+			case 2:
+				close(inGate)
+				select {
+				case <-gate:
+				case <-time.After(60 * time.Second):
+				}
+				return 200, listN
+			}
+			return 200, listN1
+		}})
+		rep := map[string]any{"backend": backendName(disk), "signature_validation_mode": rw.w.Cfg.Sig}
+		r0 := rw.w.HandshakeTimeout(rw.chains["driver"], 60*time.Second)
+		rep["first_handshake"] = r0
+		passDone := make(chan struct{})
+		go func() { defer close(passDone); rw.w.RefreshAll() }()
+		select {
+		case <-inGate:
+		case <-passDone:
+			c.Drift("stale-bgload:pass-did-not-fetch-the-unloaded-location")
+			rw.close()
+			continue
+		case <-time.After(30 * time.Second):
+			c.Drift("stale-bgload:pass-did-not-reach-the-origin")
+			close(gate)
+			rw.close()
+			continue
+		}
+		r1 := rw.w.HandshakeTimeout(rw.chains["driver"], 60*time.Second)
+		mid, _ := rw.probe(2 * time.Second)
+		rep["handshake_during_pass"], rep["lookups_before_the_pass_ends"] = r1, mid
+		close(gate)
+		select {
+		case <-passDone:
+		case <-time.After(90 * time.Second):
+			c.Drift("stale-bgload:pass-never-returned")
+			rw.close()
+			continue
+		}
+		after, _ := rw.probe(2 * time.Second)
+		rep["lookups_after_the_pass"] = after
+		n++
+		c.Eval("stale-bgload|" + backendName(disk))
+		gotMid, okMid := listedOf(mid)
+		gotAfter, okAfter := listedOf(after)
+		if okMid && gotMid == "yz" && (!okAfter || gotAfter != "yz") {
+			c.Violation(fmt.Sprintf("%s:superseded-list-installed-by-a-late-background-load", backendName(disk)),
+				fmt.Sprintf("a handshake loaded list N+1 {yz} while a pass was still transferring list N {xz} for the same, not yet loaded location; when the pass ended the lookups answer {%s} (ok=%v): the older list displaced its replacement", gotAfter, okAfter), rep)
+		} else if !okMid || gotMid != "yz" {
+			c.Drift("stale-bgload:handshake-did-not-load:" + gotMid)
+		}
+		rw.close()
+	}
+	_ = prop
+	return n
 }
 
 // overlappingPasses: CrlRepo.tla has ONE loader process per entry - passes over a CRL never overlap (the process-wide refresh
